@@ -29,6 +29,9 @@ CLAIMS = {
  'C05': ("Decides necessary conditions of graceful termination: close typestate of closer/done (only in updateInFlight, only idle∧shutting-down, done only after the reader is gone), idle() reads all four quantities, counters paired on all exits, admission monotone during shutdown, both session Close sequences ordered (keep-alive, listen/subscription cancellation before conn.Close, onClose once), disconnect purges every session-holding field, lock-order graph over all SDK mutexes acyclic, no connection I/O reachable under Server.mu/Client.mu, every goroutine loop has an exit, every blocking select has a close/cancel arm, bare channel operations are a closed classified table, tickers/cancel funcs released. "
          "Not decided: termination itself under all interleavings (liveness); absence of panics in general.",
          "typestate + guard dominance rules, interprocedural must-lockset with requires-lock/closure-under-lock summaries, lock-order graph over the VTA call graph, reachability of I/O sinks under lock", "§3 C05"),
+ 'C06': ("Decides the receive gate as a finite table: for every method key of serverMethodInfos (+ one unknown) × {initialized} × {new protocol}, a three-valued predicate-abstraction reachability over ServerSession.handle's own CFG determines whether the handler dispatch is reachable and which rejections precede it, and compares that with the table the statement dictates; plus: metadata validation and the version gate dominate dispatch (and state adoption), failure codes -32602/-32022 with the supported list, new-protocol acceptance only after clientCapabilities decoded, and every writer of the lifecycle state is one of the guarded transitions whose rejections sit on non-writing branches. "
+         "Not decided: the composed behaviour over arbitrary message sequences (both factors are checked, not their explored product).",
+         "predicate-abstraction reachability on the CFG (Kleene evaluation of branch conditions), table extraction from composite literals, field-writer ownership with guard dominance", "§3 C06"),
 }
 
 REASONS = {}
